@@ -139,6 +139,7 @@ theorem handler_weff {c : Cfg} {s s' : St} {e : Env} {op : Op} {m : List Msg}
       · injection h with h; injection h with h1 h2; subst h1
         exact Or.inl ⟨rfl, rfl, rfl, rfl⟩
   | helperDeposit a0 a1 dur => cases h
+  | helperDepositAs x0 x1 a0 a1 dur => cases h
 
 theorem WEff.bal_l {s s' : St} {e : Env} (b : Bal) (h : WEff { s with bal := b } s' e) : WEff s s' e := h
 theorem WEff.bal_r {s s' : St} {e : Env} (b : Bal) (h : WEff s s' e) : WEff s { s' with bal := b } e := h
